@@ -30,7 +30,7 @@ pub struct Detached<I: MRBIterator> {
     inner: I,
 }
 
-unsafe impl<I: MRBIterator> Send for Detached<I> {}
+unsafe impl<I: MRBIterator + Send> Send for Detached<I> {}
 
 
 impl<T, I: MRBIterator<Item = T>> Detached<I> {
